@@ -16,7 +16,7 @@ inductive Sim
   | rom (c : Collection)
 
 def distConfig (ds : List (Descr × Bool)) (mps : Nat) : Dist.Config :=
-  ⟨ds.map (fun (d, rt) => ⟨key d, ⟨d.bytes.toArray⟩, if rt then none else some d.bytes.length⟩), mps⟩
+  ⟨ds.map (fun (d, rt) => ⟨key d, ⟨d.bytes⟩, if rt then none else some d.bytes.length⟩), mps⟩
 
 def mkSim (cfg : List Nat) : Sim :=
   let kind := fld cfg 0
